@@ -237,10 +237,56 @@ def match_known(prop: str, vio: dict, known: list[dict]):
     return None
 
 
+def isolated_run_one(mod, case: dict, timeout: float) -> dict:
+    """run_one in a forked child (the parent of a check must survive code
+    under test that hangs in native code or eats memory)."""
+    r, w = os.pipe()
+    rstate = random.getstate()
+    pid = os.fork()
+    if pid == 0:
+        code = 0
+        try:
+            os.close(r)
+            random.setstate(rstate)
+            limit_memory()
+            res = run_one(mod, case, timeout)
+            keep = {k: res.get(k) for k in ("ok", "vclass", "detail", "key",
+                                           "digest", "harness_error")}
+            keep["case"] = case  # (run_case may add recorded choices)
+            with os.fdopen(w, "w", encoding="utf-8") as f:
+                json.dump(keep, f, default=str)
+        except BaseException:  # pylint: disable=broad-except
+            code = 3
+        finally:
+            os._exit(code)
+    os.close(w)
+    t0 = time.time()
+    while True:
+        got, _ = os.waitpid(pid, os.WNOHANG)
+        if got:
+            break
+        if time.time() - t0 > timeout + 20 or rss_of_tree(pid) > 6 * 2**30:
+            kill_tree(pid)
+            os.waitpid(pid, 0)
+            os.close(r)
+            return {"ok": True, "harness_error": "isolated run killed "
+                    "(time or memory)"}
+        time.sleep(0.02)
+    with os.fdopen(r, encoding="utf-8") as f:
+        data = f.read()
+    if not data:
+        return {"ok": True, "harness_error": "isolated run died"}
+    res = json.loads(data)
+    case.clear()
+    case.update(res.pop("case"))
+    return res
+
+
 def minimise(mod, vio: dict, budget_s: float, case_timeout: float) -> dict:
     """Greedy shrinking: accept a candidate when it still fails with the same
     violation class (and the same known-finding key)."""
-    if not hasattr(mod, "shrink"):
+    if not hasattr(mod, "shrink") or (vio.get("key") or {}).get(
+            "engine") == "watchdog":
         return vio
     best = vio
     deadline = time.time() + budget_s
@@ -254,7 +300,7 @@ def minimise(mod, vio: dict, budget_s: float, case_timeout: float) -> dict:
             cand["_sub_seed"] = best["case"].get("_sub_seed")
             cand["_index"] = best["case"].get("_index")
             cand["_minimised"] = True
-            res = run_one(mod, cand, case_timeout)
+            res = isolated_run_one(mod, cand, min(case_timeout, 60.0))
             if (not res.get("ok", True) and not res.get("harness_error") and
                     res.get("vclass") == best["vclass"] and
                     (res.get("key") or {}) == (best.get("key") or {})):
@@ -375,6 +421,7 @@ def rerun_sandboxed(mod_id: str, case_path: str, timeout: float,
 
 
 def cmd_digests(mod_id: str, tier: str, indices: str) -> int:
+    limit_memory()
     seed = int(os.environ.get("VERIF_SEED", "0"))
     mod = load_prop(mod_id)
     if hasattr(mod, "setup"):
@@ -390,6 +437,7 @@ def cmd_digests(mod_id: str, tier: str, indices: str) -> int:
 
 def cmd_check(mod_id: str, tier: str) -> int:
     t0 = time.time()
+    limit_memory()  # inherited by every child; the parent itself needs little
     seed = int(os.environ.get("VERIF_SEED", "0"))
     mod = load_prop(mod_id)
     prop = mod.ID
@@ -617,6 +665,7 @@ def finish_check(mod, mod_id: str, prop: str, seed: int, tier: str, nw: int,
 
 
 def cmd_replay(path: str) -> int:
+    limit_memory()
     with open(path, encoding="utf-8") as f:
         rep = json.load(f)
     prop = rep["property"]
